@@ -93,6 +93,42 @@ var c17MarkerTexts = []string{
 var c17SimpleDocs = []string{"doc_1", "doc_2", "kb7", "manual_3", "faq_12"}
 var c17PathDocs = []string{"docs/a.md_0", "docs/b.md_0", "docs/b.md_1", "guide-v1", "guide-v2", "notes.md_3"}
 
+// The third family of document ids is composed per case: <stem><separator><number>, from a small vocabulary, so that
+// the ids of one case share words (notes-1 / notes-7 / faq-1), differ only by an English ending (notes.2 / note.2,
+// runs#1 / running#1) or only by letter case (FAQ-1 / faq-1). An id never contains white space (the sources of a
+// cached answer are a space-separated list).
+var c17StemGroups = [][]string{{"notes", "note", "Notes"}, {"faq", "FAQ", "faqs"}, {"guide", "guides"}, {"runs", "running", "run"}, {"report", "reports"}, {"docs", "doc"}}
+var c17IDSeps = []string{"-", "-", "/", ".", "#", ":", "-v"}
+var c17IDNums = []string{"1", "2", "7", "12", "1.2"}
+
+func (g *c17Gen) composeDocs() []string {
+	rt := g.rt
+	nGroups := c17Int(rt, "id-stem-groups", 1, 3)
+	var stems []string
+	g0 := c17Int(rt, "id-stem-group", 0, len(c17StemGroups)-1)
+	for i := 0; i < nGroups; i++ {
+		grp := c17StemGroups[(g0+i)%len(c17StemGroups)]
+		stems = append(stems, grp[0])
+		if c17Int(rt, "id-stem-variant", 0, 9) < 4 {
+			stems = append(stems, grp[c17Int(rt, "id-stem-variant-which", 1, len(grp)-1)])
+		}
+	}
+	sep := c17Pick(rt, "id-sep", c17IDSeps)
+	n := c17Int(rt, "n-ids", 5, 9)
+	var out []string
+	for tries := 0; len(out) < n && tries < 40; tries++ {
+		sp := sep
+		if c17Int(rt, "id-other-sep", 0, 9) == 0 {
+			sp = c17Pick(rt, "id-sep2", c17IDSeps)
+		}
+		id := c17Pick(rt, "id-stem", stems) + sp + c17Pick(rt, "id-num", c17IDNums)
+		if !c17Has(out, id) {
+			out = append(out, id)
+		}
+	}
+	return out
+}
+
 type c17Deco struct {
 	deny        string
 	marker      string
@@ -155,6 +191,7 @@ type c17Gen struct {
 	restarts   int
 	aim        int  // requests still to be aimed at what a restart could have changed (stored / invalidated answers, forbidden prompts)
 	restarted  bool // at least one restart so far
+	family     string
 }
 
 func (g *c17Gen) vec(p c17Pos) []float32 {
@@ -654,7 +691,28 @@ func (g *c17Gen) genInvalidate(i int) (c17Step, bool) {
 	if len(cited) > 0 && c17Int(g.rt, "invalidate-cited", 0, 9) < 7 {
 		pool = cited
 	}
+	// contested documents: cited by a stored answer while another stored answer, which does not cite it, has sources
+	// that look like it (share a word). Exactly the citing answers must go, the look-alikes must stay. Those where a
+	// look-alike has the shorter sources list are listed three times.
+	var contested []string
+	seenDoc := map[string]bool{}
+	for _, d := range cited {
+		if seenDoc[d] {
+			continue
+		}
+		seenDoc[d] = true
+		if nc, na, shorter := g.contest(d); nc > 0 && na > 0 {
+			contested = append(contested, d)
+			if shorter {
+				contested = append(contested, d, d)
+			}
+		}
+	}
+	if len(contested) > 0 && c17Int(g.rt, "invalidate-contested", 0, 9) < 6 {
+		pool = contested
+	}
 	doc := c17Pick(g.rt, "doc", pool)
+	nCite, nAlike, shorter := g.contest(doc)
 	n := 0
 	for _, e := range g.m.ents {
 		if !e.Present {
@@ -677,7 +735,40 @@ func (g *c17Gen) genInvalidate(i int) (c17Step, bool) {
 	if n > 0 {
 		intent = "invalidate-removes"
 	}
+	if nCite > 1 {
+		intent += "+several"
+	}
+	if nAlike > 0 {
+		intent += "+look-alike"
+		if shorter {
+			intent += "+shorter-look-alike"
+		}
+	}
 	return c17Step{Op: "invalidate", Doc: doc, Intent: intent}, true
+}
+
+// contest: how many present stored answers cite doc, how many do not cite it but have sources that share a word with
+// it, and whether one of the latter has a shorter sources list (in words) than one of the former.
+func (g *c17Gen) contest(doc string) (nCite, nAlike int, shorter bool) {
+	maxCite, minAlike := 0, 1<<30
+	for _, e := range g.m.ents {
+		if !e.Present || c17Has(e.Sources, "?") {
+			continue
+		}
+		switch w := c17SrcWords(e.Sources); {
+		case c17Has(e.Sources, doc):
+			nCite++
+			if w > maxCite {
+				maxCite = w
+			}
+		case c17LookAlike(doc, e.Sources):
+			nAlike++
+			if w < minAlike {
+				minAlike = w
+			}
+		}
+	}
+	return nCite, nAlike, nCite > 0 && nAlike > 0 && minAlike < maxCite
 }
 
 func c17GenCase() *rapid.Generator[*c17Case] {
@@ -724,12 +815,21 @@ func c17GenCase() *rapid.Generator[*c17Case] {
 			c.Deny = append(c.Deny, c17DenyPool[j].Pat)
 		}
 		// documents
-		g.docs = append(g.docs, c17SimpleDocs...)
-		if rapid.Bool().Draw(rt, "path-like-ids") {
+		switch x := c17Int(rt, "id-family", 0, 9); {
+		case x < 3:
+			g.family = "single-word"
+			g.docs = append(g.docs, c17SimpleDocs...)
+		case x < 6:
 			// chunk ids as the RAG pipeline writes them (<path>_<n>): they share stemmed tokens
+			g.family = "path-like"
 			g.docs = append([]string{}, c17PathDocs...)
 			g.docs = append(g.docs, "doc_1")
+		default:
+			g.family = "composed-shared-words"
+			g.docs = g.composeDocs()
 		}
+		c.IDFamily = g.family
+		wide := g.family != "single-word" // ids that share words: more stored answers, source lists of different lengths
 
 		m, _ := c17NewModel(c)
 		g.m = m
@@ -752,6 +852,9 @@ func c17GenCase() *rapid.Generator[*c17Case] {
 		// pre-populated cache entries
 		if c.CacheOn && c.CachePre {
 			nS := c17Int(rt, "n-seeds", 0, 3)
+			if wide {
+				nS = c17Pick(rt, "n-seeds-wide", []int{0, 1, 2, 3, 3, 4, 4, 5})
+			}
 			for i := 0; i < nS; i++ {
 				cands := g.candidates()
 				p := cands[c17Int(rt, "seed-place", 0, len(cands)-1)]
@@ -772,6 +875,13 @@ func c17GenCase() *rapid.Generator[*c17Case] {
 				s := c17Seed{ID: fmt.Sprintf("seed_%d", i), Vec: g.vec(p), Response: fmt.Sprintf(`{"response":"stored answer %d"}`, i),
 					AgeSec: c17Pick(rt, "seed-age", ages)}
 				nSrc := c17Int(rt, "n-sources", 0, 2)
+				if wide {
+					// short and long lists side by side
+					nSrc = c17Pick(rt, "n-sources-wide", []int{0, 1, 1, 1, 2, 2, 3, 4, 5, 6})
+					if nSrc > len(g.docs) {
+						nSrc = len(g.docs)
+					}
+				}
 				for len(s.Sources) < nSrc {
 					j := c17Int(rt, "seed-source", 0, len(g.docs)-1)
 					for c17Has(s.Sources, g.docs[j]) {
@@ -787,6 +897,10 @@ func c17GenCase() *rapid.Generator[*c17Case] {
 		if c.RAG {
 			c.RAGTopK = c17Int(rt, "top-k", 1, 3)
 			nC := c17Int(rt, "n-chunks", 1, 3)
+			if wide {
+				c.RAGTopK = c17Int(rt, "top-k-wide", 1, 4)
+				nC = c17Int(rt, "n-chunks-wide", 1, 5)
+			}
 			ids := append([]string{}, g.docs...)
 			for i := 0; i < nC && i < len(ids); i++ {
 				v := make([]float32, c.Dim)
@@ -810,6 +924,9 @@ func c17GenCase() *rapid.Generator[*c17Case] {
 
 		// steps
 		nSteps := c17Int(rt, "n-steps", 2, 8)
+		if extra := len(c.Seeds) - 3; extra > 0 && nSteps > 8-extra {
+			nSteps = 8 - extra // the cache index stays as small as before
+		}
 		sleeps := 0
 		// a restart (close gateway and engine, reopen on the same directory) is placed where durable state has just
 		// changed - right after an invalidation, a cache save, a late forbidden prompt - or anywhere; it is not a
@@ -863,9 +980,9 @@ func c17GenCase() *rapid.Generator[*c17Case] {
 			}
 			c.Steps = append(c.Steps, st)
 			switch {
-			case st.Intent == "invalidate-removes":
+			case strings.HasPrefix(st.Intent, "invalidate-removes"):
 				restart("right-after-invalidate-removes", 50)
-			case st.Intent == "invalidate-noop":
+			case strings.HasPrefix(st.Intent, "invalidate-noop"):
 				restart("right-after-invalidate-noop", 15)
 			case st.Op == "forbid":
 				restart("right-after-forbid", 35)
@@ -903,6 +1020,26 @@ func c17Labels(c *c17Case) (labels []string, nontrivial bool) {
 	if c.RAG {
 		set["rag"] = true
 	}
+	if c.IDFamily != "" {
+		set["ids:"+c.IDFamily] = true
+	}
+	if len(c.Seeds) > 3 {
+		set["seeds:4-5"] = true
+	}
+	minSrc, maxSrc := 1<<30, 0
+	for _, s := range c.Seeds {
+		if n := len(s.Sources); n > 0 {
+			if n < minSrc {
+				minSrc = n
+			}
+			if n > maxSrc {
+				maxSrc = n
+			}
+		}
+	}
+	if maxSrc >= 3 && minSrc < maxSrc {
+		set["seeds:short-and-long-source-lists"] = true
+	}
 	for _, st := range c.Steps {
 		in := st.Intent
 		if in == "" {
@@ -929,6 +1066,17 @@ func c17Labels(c *c17Case) (labels []string, nontrivial bool) {
 		}
 		if strings.Contains(in, "+marker") {
 			set["has:blocked-with-marker"] = true
+		}
+		if st.Op == "invalidate" {
+			if strings.Contains(in, "+several") {
+				set["has:"+base+"-several-answers"] = true
+			}
+			if strings.Contains(in, "+look-alike") {
+				set["has:"+base+"-with-look-alike-that-must-stay"] = true
+			}
+			if strings.Contains(in, "+shorter-look-alike") {
+				set["has:"+base+"-with-shorter-look-alike-that-must-stay"] = true
+			}
 		}
 		if strings.Contains(in, "+after-delete") {
 			set["has:cache-hit-after-gateway-delete"] = true
